@@ -254,3 +254,28 @@ def scrape_aligned_domain(analyzer):
     pow2 = "params < 1" in cond and "params & (params - 1) ~= 0" in cond
     mx = re.search(r"params > (0x[0-9a-fA-F]+|\d+)", cond)
     return {"pow2": pow2, "max": int(mx.group(1), 0) if (mx and pow2) else 0}
+
+
+def scrape_sideeffect_policy(analyzer):
+    """The two facts coq/C01/Order.v takes about the analyzer's `sideeffect` attribute:
+      args_propagate  visitor_Call: when the callee carries no side effect, the call takes the attribute from its
+                      arguments (`for i=1,#argnodes do if argnodes[i].attr.sideeffect then attr.sideeffect = true end end`
+                      in the else branch of `if sideeffect then attr.sideeffect = true ...`)
+      indirect_marks  visitors.Assign: a target without a symbol (field, index, pointer) marks the enclosing function
+                      (`else ... context:mark_funcscope_sideeffect()` after `if symbol then ... end`)
+    The anchoring statements must be found (hard error otherwise); the two branches may be absent (False)."""
+    m = re.search(r"\n    if sideeffect then\s*\n\s*attr\.sideeffect = true\s*\n\s*context:mark_funcscope_sideeffect\(\)[ \t]*\n((?:    else.*?\n)?)    end\n", analyzer, re.S)
+    if not m:
+        raise RuntimeError("analyzer.lua: visitor_Call: `if sideeffect then attr.sideeffect = true; mark_funcscope_sideeffect()` not found")
+    rest = m.group(1)
+    args = bool(re.search(r"^\s*else[^\n]*\n\s*for i=1,#argnodes do\s*\n\s*if argnodes\[i\]\.attr\.sideeffect then attr\.sideeffect = true end\s*\n\s*end\s*$", rest.rstrip("\n")))
+    if rest.strip() and not args:
+        raise RuntimeError("analyzer.lua: visitor_Call: unknown else branch of the sideeffect test: %r" % rest[:200])
+    m = re.search(r"\n    if symbol then[^\n]*\n(.*?)\n      if symbol\.staticstorage then[^\n]*\n\s*context:mark_funcscope_sideeffect\(\)[ \t]*\n      end\n((?:    else.*?\n)?)    end\n", analyzer, re.S)
+    if not m:
+        raise RuntimeError("analyzer.lua: visitors.Assign: `if symbol then ... if symbol.staticstorage then mark_funcscope_sideeffect()` not found")
+    rest = m.group(2)
+    ind = bool(re.search(r"^\s*else[^\n]*\n\s*context:mark_funcscope_sideeffect\(\)\s*$", rest.rstrip("\n")))
+    if rest.strip() and not ind:
+        raise RuntimeError("analyzer.lua: visitors.Assign: unknown else branch for targets without a symbol: %r" % rest[:200])
+    return {"args_propagate": args, "indirect_marks": ind}
